@@ -8,8 +8,8 @@ import (
 
 func TestDbgBuild(t *testing.T) {
 	fails := 0
-	for seed := int64(0); seed < 1200; seed++ {
-		s := &stepper{rng: rand.New(rand.NewSource(seed)), unit: units[seed%2]}
+	for seed := int64(0); seed < 3000; seed++ {
+		s := &stepper{rng: rand.New(rand.NewSource(seed)), unit: units[(seed/3)%2]}
 		sc := []string{"plain", "strings"}[seed%2]
 		n := []int{1, 2, 3, 7}[(seed/2)%4]
 		g, b, err := s.build(map[string]any{"sc": sc, "rows": "many", "md": "none", "n": float64(n), "ex": float64(1)}, "")
